@@ -129,6 +129,45 @@ func newSchedColl(lg commit.Logger) *column.Collection {
 	return c
 }
 
+// hookCol is a user-defined column (the Column interface is public) that delegates to a stock int64
+// column and parks the calling worker after Grow and after Apply: a commit can be stopped between two
+// of its column stores, and a chunk allocation between two column growths, without any hook in /repo.
+type hookCol struct {
+	column.Column
+	s *scheduler
+}
+
+func (h *hookCol) Grow(idx uint32) {
+	h.Column.Grow(idx)
+	if h.s != nil {
+		h.s.yield("g:grown")
+	}
+}
+
+func (h *hookCol) Apply(chunk commit.Chunk, r *commit.Reader) {
+	h.Column.Apply(chunk, r)
+	if h.s != nil {
+		h.s.yield("g:applied")
+	}
+}
+
+// newSchedCollHooked: like newSchedColl, with the hooked column "h" registered first (grown and, when a
+// transaction writes a, h, y in that order, applied between a and y)
+func newSchedCollHooked(lg commit.Logger, h *hookCol) *column.Collection {
+	c := column.NewCollection(column.Options{Capacity: 64, Vacuum: 24 * time.Hour, Writer: lg})
+	if h != nil {
+		c.CreateColumn("h", h)
+	} else {
+		c.CreateColumn("h", column.ForInt64())
+	}
+	c.CreateColumn("x", column.ForInt64(column.WithMerge(dblMerge)))
+	c.CreateColumn("y", column.ForInt64())
+	c.CreateColumn("a", column.ForInt64())
+	c.CreateColumn("b", column.ForInt64())
+	c.CreateColumn("tag", column.ForInt64())
+	return c
+}
+
 func dumpRows(c *column.Collection, cols []string) string {
 	var rows []string
 	c.Query(func(txn *column.Txn) error {
@@ -387,9 +426,23 @@ func scenarioWriters(name, logKind string, plans []writerPlan, withReader bool) 
 // scenarioSnapshot: a snapshot taken while writers commit; restore must equal, per chunk, the
 // primary after a prefix of the commits applied to that chunk (C08)
 func scenarioSnapshot(name string, nWriters, txns int, rowsPerWriter [][]uint32) scenario {
+	return scenarioSnapshotOpt(name, nWriters, txns, rowsPerWriter, false, false)
+}
+
+// hooked: the writers also store into the hooked column "h" between a and y, so they can be parked in
+// the middle of a commit (latch held, a stored, y not yet); grow: one more thread allocates a new chunk
+// and is parked between the growth of two columns
+func scenarioSnapshotOpt(name string, nWriters, txns int, rowsPerWriter [][]uint32, hooked, grow bool) scenario {
 	return scenario{name: name, build: func(s *scheduler) (func(*scheduler) (string, string, string), func()) {
 		lg := &streamLogger{kind: "log"}
-		c := newSchedColl(lg)
+		var c *column.Collection
+		var hc *hookCol
+		if hooked || grow {
+			hc = &hookCol{Column: column.ForInt64()}
+			c = newSchedCollHooked(lg, hc)
+		} else {
+			c = newSchedColl(lg)
+		}
 		var all []uint32
 		for _, rs := range rowsPerWriter {
 			all = append(all, rs...)
@@ -407,6 +460,9 @@ func scenarioSnapshot(name string, nWriters, txns int, rowsPerWriter [][]uint32)
 		lg.stream = nil
 		lg.mu.Unlock()
 		column.VerifSetYield(s.yield)
+		if hc != nil {
+			hc.s = s
+		}
 		done := make([]int64, nWriters)    // commits acknowledged per writer
 		started := make([]int64, nWriters) // commits started per writer
 		var ackAtStart, startedAtEnd []int64
@@ -421,6 +477,9 @@ func scenarioSnapshot(name string, nWriters, txns int, rowsPerWriter [][]uint32)
 						for _, r := range rowsPerWriter[wi] {
 							txn.QueryAt(r, func(row column.Row) error {
 								row.SetInt64("a", int64(k)) // sequence number of this writer's commit
+								if hooked {
+									row.SetAny("h", int64(k))
+								}
 								row.MergeInt64("y", 1)
 								return nil
 							})
@@ -429,6 +488,13 @@ func scenarioSnapshot(name string, nWriters, txns int, rowsPerWriter [][]uint32)
 					})
 					atomic.AddInt64(&done[wi], 1)
 				}
+			})
+		}
+		if grow {
+			s.spawn("grower", func() {
+				top := uint32(3 * 16384)
+				insertMarkers(c, top)
+				c.QueryAt(top, func(row column.Row) error { row.SetInt64("a", 1); row.MergeInt64("y", 1); return nil })
 			})
 		}
 		s.spawn("snapshot", func() {
@@ -445,7 +511,14 @@ func scenarioSnapshot(name string, nWriters, txns int, rowsPerWriter [][]uint32)
 				return "snapfail", "Snapshot failed under concurrent writers: " + snapErr.Error(), ""
 			}
 			column.VerifSetYield(nil)
+			if hc != nil {
+				hc.s = nil
+			}
 			q := newSchedColl(nil)
+			if hc != nil {
+				q.Close()
+				q = newSchedCollHooked(nil, nil)
+			}
 			defer q.Close()
 			if err := q.Restore(bytes.NewReader(snap.Bytes())); err != nil {
 				return "cut", "Restore of the snapshot failed: " + err.Error(), ""
@@ -695,7 +768,9 @@ func scenariosFor(prop string, tier string) []scenario {
 		out = append(out, scenarioSnapshot("snap-2w-1chunk", 2, 2, [][]uint32{{0}, {1}}),
 			scenarioSnapshot("snap-2w-shared-row-chunk", 2, 2, [][]uint32{{0, 2}, {1, 3}}),
 			scenarioSnapshot("snap-2w-2chunks", 2, 2, [][]uint32{{0, b1}, {1, b1 + 1}}),
-			scenarioSnapshot("snap-3w-2chunks", 3, 1, [][]uint32{{0}, {b1}, {1, b1 + 1}}))
+			scenarioSnapshot("snap-3w-2chunks", 3, 1, [][]uint32{{0}, {b1}, {1, b1 + 1}}),
+			scenarioSnapshotOpt("snap-midcommit", 2, 1, [][]uint32{{0}, {b1}}, true, false),
+			scenarioSnapshotOpt("snap-growth", 0, 0, nil, false, true))
 	case "C11", "C02":
 		out = append(out, scenarioInserters("2ins", 2, 2, false), scenarioInserters("3ins", 3, 1, false), scenarioInserters("2ins-deleter", 2, 2, true))
 	case "C12":
